@@ -56,7 +56,9 @@ func (r *Report) add(status, rule, key, pos, detail string) *Ob {
 	return ob
 }
 
-func (r *Report) ok(rule, key, pos, detail string) *Ob { return r.add("discharged", rule, key, pos, detail) }
+func (r *Report) ok(rule, key, pos, detail string) *Ob {
+	return r.add("discharged", rule, key, pos, detail)
+}
 func (r *Report) fail(rule, key, pos, detail string) *Ob {
 	return r.add("violated", rule, key, pos, detail)
 }
@@ -231,15 +233,15 @@ func writeEvidence(p *Prog, r *Report, tier, evdir, replaydir string, known map[
 		"distinct_nontrivial": len(r.keys),
 		"rule": "each obligation is one rule instance (rule/function/construct) decided from the SSA form of /repo's current source; " +
 			"distinct = distinct obligation keys; all are non-trivial (each names a concrete construct that was found and judged); " + r.Rule,
-		"samples":          samples,
-		"explanation":      r.Explanation,
-		"checker_cmd":      fmt.Sprintf("/verif/bin/cctpcheck -repo %s -prop %s -tier %s", p.Root, r.Prop, tier),
-		"trusted_base":     r.Trusted,
-		"exhaustive":       true,
+		"samples":             samples,
+		"explanation":         r.Explanation,
+		"checker_cmd":         fmt.Sprintf("/verif/bin/cctpcheck -repo %s -prop %s -tier %s", p.Root, r.Prop, tier),
+		"trusted_base":        r.Trusted,
+		"exhaustive":          true,
 		"obligations_by_rule": byRule,
-		"known_findings":   knownHits,
-		"module_functions": len(p.Funcs),
-		"load_s":           p.LoadS,
+		"known_findings":      knownHits,
+		"module_functions":    len(p.Funcs),
+		"load_s":              p.LoadS,
 	}
 	for k, v := range r.Extra {
 		cov[k] = v
